@@ -717,11 +717,12 @@ impl VerifBox for IdentityBox {
                 let args = kv(rest);
                 let idx = |k: &str| args.get(k).and_then(|s| s.parse::<usize>().ok()).filter(|i| *i < KEYS);
                 let (Some(d), Some(l)) = (idx("d"), idx("l")) else { return "bad-op".into() };
+                // `<k>`: the identity-form id of key k; `h<k>`: its SHA2-256 form
                 let dialed = match args.get("dialed").copied() {
                     Some("none") => None,
-                    Some(_) => match idx("dialed") {
-                        Some(i) => Some(i),
-                        None => return "bad-op".into(),
+                    Some(s) => match s.strip_prefix('h').unwrap_or(s).parse::<usize>().ok().filter(|i| *i < KEYS) {
+                        Some(i) if s.strip_prefix('h').map_or(true, |r| !r.starts_with('h')) => Some((i, s.starts_with('h'))),
+                        _ => return "bad-op".into(),
                     },
                     None => return "bad-op".into(),
                 };
@@ -740,11 +741,11 @@ impl VerifBox for IdentityBox {
                 let args = kv(rest);
                 let idx = |k: &str| args.get(k).and_then(|s| s.parse::<usize>().ok()).filter(|i| *i < KEYS);
                 let (Some(d), Some(l)) = (idx("d"), idx("l")) else { return "bad-op".into() };
-                let expected = match args.get("exp").copied() {
+                                let expected = match args.get("exp").copied() {
                     Some("none") => None,
-                    Some(_) => match idx("exp") {
-                        Some(i) => Some(i),
-                        None => return "bad-op".into(),
+                    Some(s) => match s.strip_prefix('h').unwrap_or(s).parse::<usize>().ok().filter(|i| *i < KEYS) {
+                        Some(i) if s.strip_prefix('h').map_or(true, |r| !r.starts_with('h')) => Some((i, s.starts_with('h'))),
+                        _ => return "bad-op".into(),
                     },
                     None => return "bad-op".into(),
                 };
@@ -777,6 +778,28 @@ impl VerifBox for IdentityBox {
                     return "bad-op".into();
                 };
                 crate::transport::tcp::verif_c01_tcp::poll_script(&items, inbound, acc == 1, neg == 1)
+            }
+            // the overall dial deadline of TcpTransport::open: addresses that stall / refuse / answer, real time
+            ["dl", rest @ ..] => {
+                let args = kv(rest);
+                if rest.iter().any(|a| !a.contains('=')) {
+                    return "bad-op".into();
+                }
+                let kinds: Vec<char> = args.get("a").map(|s| s.chars().collect()).unwrap_or_default();
+                if kinds.is_empty() || kinds.len() > 4 || kinds.iter().any(|c| !['s', 'r', 'k'].contains(c)) {
+                    return "bad-op".into();
+                }
+                let Some(t) = args.get("t").and_then(|s| s.parse::<u64>().ok()).filter(|t| (100..=1000).contains(t)) else {
+                    return "bad-op".into();
+                };
+                let cancel = match args.get("cancel") {
+                    None => None,
+                    Some(s) => match s.parse::<u64>() {
+                        Ok(ms) if ms <= 1000 => Some(ms),
+                        _ => return "bad-op".into(),
+                    },
+                };
+                crate::transport::tcp::verif_c01_tcp::open_deadline(&kinds, t, cancel)
             }
             _ => "bad-op".into(),
         }
